@@ -34,7 +34,7 @@ def strategy(tier, unit):
     small = st.one_of(S.fl(-3e-8, 3e-8), S.fl(-1, 1), st.sampled_from([0.0, 1e-8, -1e-8, 9.9e-9, 1.01e-8]))
     cond = st.sampled_from([0, 0, 0, 2, 2, 3, 4, 6])
     return st.fixed_dictionaries({
-        "cell": S.cells(1.0, 60.0), "rot": S.rot_specs(2), "hkl": S.hkls(12, big=150), "eps": st.lists(S.fl(-0.1, 0.1), min_size=6, max_size=6),
+        "cell": st.one_of(S.cells(1.0, 60.0), S.cells(1.0, 60.0), S.cells(0.5, 500.0)), "rot": S.rot_specs(2), "hkl": S.hkls(12, big=150), "eps": st.lists(S.fl(-0.1, 0.1), min_size=6, max_size=6),
         "ang": st.tuples(S.fl(-10, 10), S.fl(-10, 10), S.fl(-10, 10)).map(list),
         "inr": st.tuples(S.fl(0, 2 * math.pi), S.fl(0, math.pi), S.fl(0, 2 * math.pi)).map(list),
         "rod": st.tuples(S.fl(-3, 3), S.fl(-3, 3), S.fl(-3, 3)).map(list),
@@ -243,6 +243,8 @@ def check(case, ctx):
         ctx.fail("differs/sysabs_unique", "sysabs_unique(%r, %r): tools %r laue %r" % (sh, sc, a, b))
     # ---- reflection generation
     hk = dict(case["hk"], setting=case["setting"])
+    if hk.get("max_points"):
+        hk["max_points"] = 6000          # (C05/C06 go to 40000; here every list is generated ~20 times per case)
     B = HK.build(hk, max_points=1500 if (hk["setting"] < 15 or hk["setting"] >= 230) else 600)
     if B.ok:
         for fn in ("genhkl_unique", "genhkl_all"):
